@@ -64,6 +64,15 @@ def cases(draw):
     fam = draw(gen.families(gen.profile(**dict(PROF, max_pkts=1))))
     cg = draw(decl.cg_options())
     root = ir.root(fam)
+    if chance(draw, 0.3) and "align" not in (root.get("opts") or {}):
+        # a size that depends on another BYTE-STRING field through == / != (docs 15: chooses / if_true_then_else on a comparison)
+        cmpop = draw(st.sampled_from(["eq", "ne"]))
+        e = ["ite", ["bin", cmpop, ["f", "m9"], ["c", draw(st.sampled_from([b"LG", b"\x00\x00", b"ab"]))]], ["c", draw(st.integers(2, 5))], ["c", draw(st.integers(0, 2))], "list"]
+        if chance(draw, 0.5):
+            e = ["ch", ["bin", cmpop, ["f", "m9"], ["c", b"LG"]], ["dict", [[True, ["c", 4]], [False, ["c", 1]]]], "dict"]
+        root["fields"] += [{"k": "data", "name": "m9", "size": ["const", 2], "incl": False},
+                           {"k": "data", "name": "z9", "size": [draw(st.sampled_from(["expr", "call"])), e], "incl": False},
+                           {"k": "int", "name": "t9", "n": 1, "signed": False, "endian": None}]
     target = draw(gen.value_trees(fam, adversarial=0.2))
     if target is None:
         return {"fam": fam, "cg": cg, "target": None}
